@@ -451,12 +451,12 @@ def _total(v):
     return t
 
 
-def _check_y(K, y, yref, kind="value==reference"):
+def _check_y(K, y, yref, kind="value==reference", pre=""):
     ok = len(y) == len(yref)
-    K.true("len(y)", ok, "shape")
+    K.true(pre + "len(y)", ok, "shape")
     if ok:
         for e in range(len(yref)):
-            K.eq("y[%d]==ref" % e, y[e], yref[e], kind)
+            K.eq(pre + "y[%d]==ref" % e, y[e], yref[e], kind)
 
 
 def _constant(V, K, m, sig, cfg):
@@ -568,6 +568,14 @@ def sc_fc_kernel(V, P, cfg):
     obs = dict(y=y)
     yref = ref_conv(x, n, K3, rules, vals, overrides)
     _check_y(K, y, yref)
+    if cfg.get("again"):
+        # history on one object: the same filter applied to another field (iteration 2 of any optimisation loop)
+        x2 = V.reals("xb", len(x))
+        sig.state = x2
+        m.response()
+        y2 = m.sig_out[0].state
+        obs["y2"] = y2
+        _check_y(K, y2, ref_conv(x2, n, K3, rules, vals, overrides), pre="second-field:")
     if kind == "fc-bounds":
         for e in range(len(y)):
             K.le("m<=y[%d]" % e, lo, y[e], "bound-lower", expand=True)
@@ -783,6 +791,9 @@ def items(tier):
             for combo in dict.fromkeys(combos):
                 bcs = dict(zip(SIDES[:2 * dim], combo))
                 add("fc-conv", "%s-%s-%s" % (_tag(mesh), _ktag(kern), _btag(bcs, dim)), mesh=mesh, kernel=kern, bcs=bcs)
+                if ki == 0 and "value" in combo and mesh in ((3, 2, 0), (2, 2, 2)):
+                    add("fc-conv", "%s-%s-%s-again" % (_tag(mesh), _ktag(kern), _btag(bcs, dim)), mesh=mesh, kernel=kern,
+                        bcs=bcs, again=True)
     # ---- pad larger than the domain: the same rule on both sides of every axis, and mixed rules
     wide = [((1, 3, 0), (5, 3)), ((2, 2, 0), (7, 3)), ((3, 1, 0), (3, 5))] + ([] if q else [((2, 2, 0), (7, 7)), ((1, 1, 0), (5, 5)),
                                                                                           ((2, 2, 2), (7, 3, 3))])
@@ -814,6 +825,9 @@ def items(tier):
                 bcs = dict(zip(SIDES[:2 * dim], combo))
                 add("fc-override", "%s-%s-%s-o%d%s" % (_tag(mesh), _ktag(kern), _btag(bcs, dim), oi, ov["set"]),
                     mesh=mesh, kernel=kern, bcs=bcs, override=ov)
+                if (oi + bi) % 3 == 0:
+                    add("fc-override", "%s-%s-%s-o%d%s-again" % (_tag(mesh), _ktag(kern), _btag(bcs, dim), oi, ov["set"]),
+                        mesh=mesh, kernel=kern, bcs=bcs, override=ov, again=True)
     # ---- bounds / constant fields / volume
     for mesh in meshes2 + meshes3:
         dim = 3 if mesh[2] else 2
